@@ -24,13 +24,15 @@ def scratch_copy():
 
 
 def apply_edit(root, m):
-    p = os.path.join(root, m["file"])
-    s = open(p).read()
-    n = s.count(m["find"])
-    if n != m.get("count", 1):
-        return False
-    s = s.replace(m["find"], m["replace"])
-    open(p, "w").write(s)
+    edits = m.get("edits") or [m]
+    for ed in edits:
+        p = os.path.join(root, ed["file"])
+        s = open(p).read()
+        n = s.count(ed["find"])
+        if n != ed.get("count", 1):
+            return False
+        s = s.replace(ed["find"], ed["replace"])
+        open(p, "w").write(s)
     return True
 
 
@@ -53,7 +55,12 @@ def run_mutant(m):
         elif not apply_edit(root, m):
             return m["id"], "skipped", "edit does not apply"
         try:
-            vs = run_on(root, m["property"])
+            if m["property"] == "ALL":
+                vs = []
+                for c in json.load(open(os.path.join(VERIF, "MANIFEST.json")))["checks"]:
+                    vs += run_on(root, c["property_id"])
+            else:
+                vs = run_on(root, m["property"])
         except Exception as e:
             return m["id"], "error", repr(e)[:400]
         keys = [v.key for v in vs]
@@ -72,7 +79,7 @@ def load_mutants(prop=None):
     out = []
     for p in sorted(glob.glob(os.path.join(VERIF, "rules", "mutants", "*.json"))):
         for m in json.load(open(p)):
-            if prop is None or m["property"] == prop:
+            if prop is None and m["property"] != "ALL" or m["property"] == prop:
                 out.append(m)
     return out
 
